@@ -192,6 +192,21 @@ theorem C07_child_alone (cfg : Cfg) (c : Node) (hwf : WF c) (hone : AtMostOne cf
     obtain ⟨q, e⟩ := obs_paths_below _ [] r hr
     exact ⟨q, by simpa [Core.forState] using e⟩
 
+/-! ## autoload at construction -/
+
+/-- the usual way of picking a saved workflow up again — `Workflow(label)`, which finds the file while it is
+being constructed — returns the STORED state whatever arguments the constructor was given or defaulted to
+(`automate_execution` defaults to `True`): the result shows what the saved graph showed, the automation
+flag and the IO maps included -/
+theorem C07_autoload_stored_wins (g : Node) (hwf : WF g) (hdet : g.core.detached = none) (ctorAuto : Bool)
+    (ctorMaps : Option Nat) :
+    ∃ g', autoloadAt Cfg.repaired false ctorAuto ctorMaps g.core.cls (some none) (save none g) = .ok g' ∧
+      obs [] g' = obs [] g := by
+  obtain ⟨g', h1, h2⟩ := C07_roundtrip_file_own g hwf hdet
+  refine ⟨g', ?_, h2⟩
+  cases g' with
+  | mk c ch dg sg => simp [autoloadAt, h1]
+
 /-! ## saving again -/
 
 /-- the file back end returns the LAST save of a location, whatever was saved there before and whichever
@@ -264,7 +279,7 @@ def chn (l : Lbl) (x : Val) : DChan := ⟨l, x, true⟩
 def core0 (label cls : Nat) (kind : Kind) (ins outs : List DChan) : Core :=
   { label, cls, kind, ins, outs, sigIns := [0, 1], sigOuts := [0, 1], received := [], running := false,
     failed := false, exec := .none, bodyExec := .none, cached := none, starting := [], inLinks := [],
-    outLinks := [], detached := none, prov := [], refused := [] }
+    outLinks := [], detached := none, prov := [], refused := [], automate := true, maps := 0 }
 def noC : CG := CG.ofTables [] []
 def leaf (label cls : Nat) (ins outs : List DChan) : Node := .mk (core0 label cls .leaf ins outs) [] noC noC
 
@@ -513,6 +528,22 @@ theorem C07_refused_connection_unloadable :
     errorOf { Cfg.repaired with revalidate := true } w10 = some .conn ∧
     shows Cfg.repaired w10 = some (obs [] w10) := by decide
 
+/-- a constructor that re-applies its arguments AFTER the autoload: the hand-wired workflow `w2h` (automation
+off, stored so) comes back with automation ON from a plain `Workflow(label)` — everything else still
+looks the same, but the next run re-derives signals and starting nodes from the data DAG; with the
+stored state winning it shows what it showed -/
+def w2h : Node :=
+  .mk { core0 0 100 .workflow [] [] with starting := [1], automate := false } w2kids noC
+    (CG.ofTables [((2, 0), [(1, 0)]), ((3, 0), [(1, 0)])] [((1, 0), [(2, 0), (3, 0)])])
+def autoShows (ctorLast : Bool) : Option (List Rec) :=
+  match autoloadAt Cfg.repaired ctorLast true none w2h.core.cls (some none) (save none w2h) with
+  | .ok g => some (obs [] g)
+  | .error _ => none
+theorem C07_ctor_last_overrides_stored :
+    autoShows true ≠ some (obs [] w2h) ∧ autoShows false = some (obs [] w2h) ∧
+    (match autoloadAt Cfg.repaired true true none w2h.core.cls (some none) (save none w2h) with
+     | .ok g => some g.core.automate | .error _ => none) = some true := by decide
+
 /-- non-vacuity of the partial statement on the pinned code: a nested graph (workflow ⊃ macro with
 value links ⊃ leaves) in a partly run, partly failed state with `NOT_DATA`, executor instructions
 and single connections satisfies its hypotheses and round-trips through both back ends -/
@@ -611,6 +642,8 @@ end PwVerif.C07
 #print axioms PwVerif.C07.C07_foreign_connection_dropped
 #print axioms PwVerif.C07.C07_loaded_macro_not_resavable
 #print axioms PwVerif.C07.C07_cached_io_view_drops_link
+#print axioms PwVerif.C07.C07_autoload_stored_wins
+#print axioms PwVerif.C07.C07_ctor_last_overrides_stored
 #print axioms PwVerif.C07.C07_last_save_wins
 #print axioms PwVerif.C07.C07_stale_file_shadows
 #print axioms PwVerif.C07.C07_load_in_place
